@@ -393,7 +393,12 @@ impl<'a> El<'a> {
     }
 
     fn backward(&mut self, i: &Instr) -> bool {
-        let live = self.live();
+        // fetched gradients are plain arrays to read and to use as operands; passes never start on them
+        // (several gradient slots may hold the very same array, which the model does not track)
+        let live: Vec<usize> = self.live().into_iter().filter(|h| !self.is_grad(*h)).collect();
+        if live.is_empty() {
+            return false;
+        }
         // prefer recent handles: selector 0 = newest
         let root = live[live.len() - 1 - ((i[1] as usize * live.len()) >> 8)];
         let n = self.m.node_of(root).t.numel();
@@ -471,7 +476,11 @@ impl<'a> El<'a> {
                 self.backward(i);
             }
             Kind::ReadGrad => {
-                let h = pick(i[1], &live);
+                let cands: Vec<usize> = all_live.iter().copied().filter(|h| !self.is_grad(*h)).collect();
+                if cands.is_empty() {
+                    return;
+                }
+                let h = pick(i[1], &cands);
                 if self.emit(Step::ReadGrad { h }) {
                     let slot = self.m.handles.len() - 1;
                     if let Some(hd) = &self.m.handles[slot] {
@@ -480,7 +489,10 @@ impl<'a> El<'a> {
                 }
             }
             Kind::ClearGrad => {
-                self.emit(Step::ClearGrad { h: pick(i[1], &live), via_replace: i[4] & 1 == 1 });
+                let cands: Vec<usize> = all_live.iter().copied().filter(|h| !self.is_grad(*h)).collect();
+                if !cands.is_empty() {
+                    self.emit(Step::ClearGrad { h: pick(i[1], &cands), via_replace: i[4] & 1 == 1 });
+                }
             }
             Kind::Probe => {
                 let cands: Vec<usize> = live.iter().copied().filter(|h| !self.is_grad(*h) && !self.m.node_of(*h).has_graph() && self.m.sole_owner(*h)).collect();
